@@ -136,5 +136,11 @@ ClassifyC04(rec) ==
                     /\ JEqPy(ApplyDiff(NNTop(Get(NN(rec.old), rec.path)), NNItems(impl)), NNTop(Get(NN(rec.new), rec.path))) THEN "F4"
             ELSE IF JEqPy(ApplyDiff(Get(rec.old, rec.path), impl), Get(rec.new, rec.path)) /\ ~JEq(Get(rec.old, rec.path), Get(rec.new, rec.path)) THEN "F23"
             ELSE "reduce_differs_from_reference"
+    \* what a handler narrowed to a field is given as old / new: the value at that field (null where there is none), whatever changed
+    [] rec.kind = "narrow" ->
+         LET Nz(x) == IF IsAbsent(x) THEN [t |-> "n"] ELSE x
+             eo == IF rec.hasold THEN Nz(Get(rec.old, rec.path)) ELSE [t |-> "n"]
+             en == Nz(Get(rec.new, rec.path))
+         IN IF JEq(rec.nold, eo) /\ JEq(rec.nnew, en) THEN "ok" ELSE "narrowed_old_new_are_not_the_values_of_the_field"
     [] OTHER -> "unknown_record_kind"
 =============================================================================
